@@ -49,6 +49,13 @@ var c13Sources = []string{
 	"set g to pattern @/(a)(b|d)\\2?/\nfind all g maybe 'a'",
 }
 
+const c13Defs = "set p to pattern 'a' or 'ab'\nset q to pattern {in 'b', 'd' maybe r} = r\n"
+
+// the last two items are a definition with numbered regex groups followed by its use: the numbering
+// restarts in every command, `set` commands included, wherever in the source they stand
+var c13Cmds = []string{"find all p q", "find all q p 'd'", "replace all p with 'x' value", "find skip 1 maybe p q", "find all @/(a)(b|d)\\1?/", "find all at least 1 (p = x) named l",
+	"set g to pattern @/(a)(b|d)\\2?/\nfind all g maybe 'a'", "set h to pattern 'a' @/(b)(d)?\\1/\nreplace all h with 'y'"}
+
 var c13Texts = []string{"abab dab", "aabbd abd aab", "bdab\nabba d"}
 
 func c13RefMain(args []string) {
@@ -381,11 +388,8 @@ func runC13(c *Ctx) {
 	}
 	// (b) commands
 	if c.Level("commands") {
-		defs := "set p to pattern 'a' or 'ab'\nset q to pattern {in 'b', 'd' maybe r} = r\n"
-		// the last two items are a definition with numbered regex groups followed by its use: the numbering
-		// restarts in every command, `set` commands included, wherever in the source they stand
-		cmds := []string{"find all p q", "find all q p 'd'", "replace all p with 'x' value", "find skip 1 maybe p q", "find all @/(a)(b|d)\\1?/", "find all at least 1 (p = x) named l",
-			"set g to pattern @/(a)(b|d)\\2?/\nfind all g maybe 'a'", "set h to pattern 'a' @/(b)(d)?\\1/\nreplace all h with 'y'"}
+		defs := c13Defs
+		cmds := c13Cmds
 		ctexts := texts("abd", 4)
 		single := make([]*libvore.Vore, len(cmds))
 		for i, cm := range cmds {
